@@ -3,7 +3,7 @@ from check import run_diff_property
 CFG = dict(
     streams=[('pass', 120, 1500), ('dbuf', 1500, 30000, 'http2test')],
     oracle_ops={'pass', 'passtr', 'passwin'},
-    http2_ops={'dbuf'},
+    http2_ops={'dbuf', 'h2status'},
     rule=("pass: generated requests (9 methods/paths incl. escapes, dot segments, ';' parameters; 7 query shapes incl. ';' and "
           "repeated keys; 5 Host values; 0-8 headers from 19 end-to-end names with repeated / empty / 8 KB / non-ASCII values plus "
           "hop-by-hop ones the client stack transmits verbatim (Connection-listed names, Keep-Alive, Proxy-Connection, "
